@@ -59,6 +59,8 @@ def run(ctx):
     subjects += [f for nm, f in mod.functions.items() if nm.startswith('_')]
     for m in subjects:
         n_sp += onepass.splice_shape(ctx, m)
+    upd = ctx.program.func('cacheutils.LRI.update')
+    onepass.sources_consumed(ctx, upd, [p_ for p_ in (upd.params[1:] + ([upd.node.args.kwarg.arg] if upd.node.args.kwarg else []))])
     if n_sp == 0:
         ctx.info('T28: no unlink statement of the form X[a][b] = X[c] in LRI/LRU')
     for r, n in (('T1', 16), ('T2', 20), ('T7', 2), ('T7e', 2), ('T9.count', 4), ('T9.soft', 4), ('T9.onmiss', 2),
